@@ -6236,8 +6236,8 @@ impl GraphEngine {
                         edge.to
                     };
                     if let Ok(neighbor) = self.get_node(neighbor_id) {
-                        // Avoid duplicates for undirected edges
-                        if !results.iter().any(|(n, _)| n.id == neighbor.id) {
+                        // Avoid listing an edge twice (undirected edges and self-loops are in both lists)
+                        if !results.iter().any(|(_, e)| e.id == edge.id) {
                             results.push((neighbor, edge));
                         }
                     }
